@@ -347,6 +347,14 @@ class BoboDecider(BoboEngineTask,
                             runremote.run_id,
                             quiet=True)
 
+            # One message may name a run as completed or halted and also as
+            # updated (e.g. a backlog of older changes sent together with
+            # newer ones). The update is stale: check the updates again,
+            # now that the completed and halted runs of this message
+            # (including local singleton runs they replaced) are cached,
+            # so that the run is not re-created after its removal.
+            _, _, updated = self._maybe_check_against_cache([], [], updated)
+
             # Update existing runs, or add new run that was started remotely
             for k, runremote in enumerate(updated):
                 pattern = self._get_pattern(
